@@ -284,8 +284,10 @@ def observe(case):
     if case.get("prog"):
         return core.observe(case)
     from a816.parse.ast.expression import expr_to_ast
-    from a816.parse.nodes import IncludeIpsNode
     from a816.symbols import Resolver
+    from .. import asmdriver
+    # the node class the code generator builds for `.include_ips` (found by behaviour, whatever it is called)
+    IncludeIpsNode = next(c for c, role in asmdriver.node_roles().items() if role == "IncludeIpsNode")
     C.WORK.mkdir(exist_ok=True)
     d = tempfile.mkdtemp(dir=C.WORK, prefix="c13-")
     try:
